@@ -1436,8 +1436,9 @@ static uint32_t peg_compile1(Builder *b, Janet peg) {
 
     /* Add to cache. Do not cache structs, as we don't yet know
      * what rule they will return! We can just as effectively cache
-     * the structs main rule. */
-    if (!janet_checktype(peg, JANET_STRUCT)) {
+     * the structs main rule. The same goes for table grammars: what their
+     * rules refer to depends on the grammar they are nested in. */
+    if (!janet_checktype(peg, JANET_STRUCT) && !janet_checktype(peg, JANET_TABLE)) {
         JanetTable *which_grammar = grammar;
         /* If we are a primitive pattern, add to the global cache (root grammar table) */
         if (!janet_checktype(peg, JANET_TUPLE)) {
